@@ -118,7 +118,7 @@ def oracle(ctx):
         more[0].value.single_atom()[2][0] == atom(("list", (A("oracle_data"), P("labeled_sample"))))
     ctx.ob("FRM", G, "labels are collected in arrival order", ok, "")
     cur = T.mk_ite(T.mk_cmp("==", A("oracle_data"), T.NONE), P("labeled_sample"), more[0].value) if more else None
-    full = T.mk_cmp("==", atom(("call", "len", (cur,), ())), A("oracle_data_length_required")) if cur is not None else None
+    full = T.mk_cmp("==", q.len_of(cur), A("oracle_data_length_required")) if cur is not None else None
     clr = [e for e in tr.stores("waiting_for_oracle") if e.value == T.FALSE]
     ctx.ob("ROLE", G, "waiting ends", len(clr) == 1, "")
     if clr and full is not None:
